@@ -21,17 +21,26 @@ Definition r_lost : rule :=
 Definition full_statement : Prop :=
   forall c, reachable any_op c -> quiescent c -> mirror c.
 
-(* a stream is cloned, the clone is dropped: RemoveMatch goes out while the original is alive *)
+(* a stream is cloned and the clone is dropped: since 3c4a83a4 the clones share one subscription, nothing is removed
+   while the original is alive; dropping the original too removes the rule (this was the witness of the former class
+   clone_uncounted: RemoveMatch went out while the original was alive) *)
 Definition w_clone : list choice :=
-  [CSpawn (OStream 1 r_sig); CThread 0; CSpawn (OClone 2 1); CThread 1; CSpawn (ODrop 2); CThread 2; CPend 0].
+  [CSpawn (OStream 1 r_sig); CThread 0; CSpawn (OClone 2 1); CThread 1; CSpawn (ODrop 2); CThread 2].
+Definition w_clone_end : list choice := [CSpawn (OAsyncDrop 1); CThread 3; CThread 3].
 
-Lemma clone_refuted :
-  exists c, reachable any_op c /\ quiescent c /\ evs c = [EAdd r_sig; ERem r_sig] /\ live c r_sig = 1%nat /\
-            bus_has (evs c) r_sig = false /\ is_sig r_sig = true.
+Example clone_repaired :
+  (exists c, run_choices plain_op w_clone init = Some c /\ quiescent c /\ evs c = [EAdd r_sig] /\ live c r_sig = 1%nat /\
+             held c = [([1], r_sig)] /\ bus_has (evs c) r_sig = true) /\
+  (exists c, run_choices plain_op (w_clone ++ w_clone_end) init = Some c /\ quiescent c /\
+             evs c = [EAdd r_sig; ERem r_sig] /\ held c = []).
 Proof.
-  destruct (run_choices any_op w_clone init) as [c|] eqn:E; [|vm_compute in E; discriminate].
-  exists c. split; [apply (run_choices_reachable _ _ _ E)|].
-  split; [apply quiescentb_spec|]; vm_compute in E; inversion E; subst; vm_compute; auto.
+  split.
+  - destruct (run_choices plain_op w_clone init) as [c|] eqn:E; [|vm_compute in E; discriminate].
+    exists c. split; [reflexivity|].
+    split; [apply quiescentb_spec|]; vm_compute in E; inversion E; subst; vm_compute; auto 10.
+  - destruct (run_choices plain_op (w_clone ++ w_clone_end) init) as [c|] eqn:E; [|vm_compute in E; discriminate].
+    exists c. split; [reflexivity|].
+    split; [apply quiescentb_spec|]; vm_compute in E; inversion E; subst; vm_compute; auto 10.
 Qed.
 
 (* request_name registers the two monitor rules; nothing ever removes them *)
@@ -47,8 +56,8 @@ Qed.
 
 Lemma full_refuted : ~ full_statement.
 Proof.
-  intro F. destruct clone_refuted as (c & R & Q & _ & L & Bh & G).
-  destruct (F c R Q r_sig) as [_ M]. rewrite M in Bh; [discriminate|]. split; [lia|exact G].
+  intro F. destruct leak_refuted as (c & R & Q & L & Bh).
+  destruct (F c R Q r_acq) as [M _]. destruct (M Bh) as [P _]. lia.
 Qed.
 
 (* ---- non-vacuity: plain operations only, a raced proxy, queued and foreground removals, a non-signal rule *)
